@@ -113,7 +113,7 @@ class RecSandbox(core.Sandbox):
                 elif "inj:mutate" in l:
                     seen.add("race:" + l.split(" ")[2])
                 elif "inj:short" in l:
-                    seen.add("short_read_schedule" if " read " in l else "short_write_schedule")
+                    seen.add("short_read_schedule" if " read " in l else ("short_write_schedule" if plan.get("out_accept") else "stdout_closed"))
                 elif "inj:epipe" in l:
                     seen.add("stdout_closed")
             elif l.endswith("type=0") and " readdir " in l:
@@ -404,7 +404,9 @@ def run_check(cid, tier, seed, workers=None, n_override=None):
             print("KNOWN-FINDING: property=%s %s [signature %s; %d case(s) this run, e.g. index %d]" % (cid, k["what"], "/".join(sig), len(items), items[0][0]), flush=True)
             known_hit.append({"signature": list(sig), "cases": len(items)})
             continue
-        if len(reported) >= 6:
+        if len(reported) >= 8:
+            print("[fsim] further violation signature not minimised/reported this run: %s (%d cases)" % ("/".join(sig), len(items)), flush=True)
+            exit_code = 1
             continue
         index, v, case = items[0]
         small, evals = minimise(chk, case, list(sig))
